@@ -258,6 +258,11 @@ class Pki:
             if spec.get('alt_locator'):
                 # another certificate name of the same key (other issuer id) that nobody serves
                 locator = list(self.names[sb][:-2]) + [bytes(enc.Component.from_str('alt')), self.names[sb][-1]]
+            if spec.get('odd_locator'):
+                # a key locator nobody can fetch a certificate under: a name holding a parameters-digest component, or a
+                # component of type 0 (the sender of a packet chooses its key locator freely)
+                odd = tlvref.tlv(2, bytes(32)) if spec['odd_locator'] == 'params-digest' else tlvref.tlv(0, b'x')
+                locator = list(locator[:-1]) + [odd, locator[-1]] if spec.get('odd_at') == 'mid' else list(locator) + [odd]
             signer = mk_signer(self.keys[sb], locator)
             if spec.get('hmac_forgery'):
                 # anybody who has seen the certificate can do this: HMAC keyed with the certificate's PUBLIC key bits,
@@ -786,6 +791,11 @@ def generate(rng, seed, tier='quick'):
                 pkt['name_user'] = 'mallory'
             elif z < 0.31:
                 pkt['hmac_forgery'] = True
+            elif z < 0.36:
+                pkt['odd_locator'] = rng.choice(['params-digest', 'type0'])
+                pkt['odd_at'] = rng.choice(['end', 'mid'])
+                if rng.random() < 0.6 and 'anchor_is' not in op and 'anchor_forged' not in op:
+                    op['bare'] = True
             if (_ > 0 or depth == 1) and 'signed_by' not in pkt and rng.random() < 0.15:
                 pkt['alt_locator'] = True
                 pkt['user'] = prev_user
